@@ -121,6 +121,34 @@ def add(res, pid):
     res.obligations += tmp.obligations
     res.struct += tmp.struct
     res.functions += tmp.functions
+    if pid == "C18":
+        # "the same values for every navigation attribute, iterator, Walker, Resolver and RenderTree result": the consumers are
+        # verified once, against the navigation contracts both families satisfy - their obligations belong to C18 as well
+        from . import c04, c15, render_props, resolver_props, seq_props
+        t4 = driver.Result(pid, res.tier, res.seed)
+        for fn in (c04.collect_all, c15.collect, seq_props.collect_search, resolver_props.collect("C07"), resolver_props.collect("C08"),
+                   render_props.collect):
+            try:
+                fn(t4)
+            except Exception as e:      # noqa
+                res.faults.append("dependency collection failed: %s" % e)
+        seen = set()
+        keep = []
+        for o in t4.obligations:
+            if o.kind in ("CANARY", "PROBE") or o.name in seen:
+                continue
+            seen.add(o.name)
+            o.props = {pid}
+            o.dependency = True
+            keep.append(o)
+        res.obligations += keep
+        res.struct += t4.struct
+        have = {f["function"] for f in res.functions}
+        for f in t4.functions:
+            if f["function"] not in have:
+                f["dependency"] = True
+                res.functions.append(f)
+                have.add(f["function"])
     config_pin(res, pid)
     if pid not in ("C01", "C16"):
         out = driver.harness_json("reentrant.py", "search", {}, timeout=600)
